@@ -527,7 +527,7 @@ fn cases(tier: Tier) -> Vec<Case> {
         }
     }
     TICKING.with(|t| t.set(false));
-    for order in 1..=3u8 {
+    for order in [1u8, 2, 3, 4, 5] {
         let var = crate::progscene::Variant { builder_order: order, ..Default::default() };
         let extra = crate::progscene::with_variant(var, || base_cases(tier));
         let step = if tier == Tier::Thorough { 2 } else { 5 };
